@@ -59,12 +59,19 @@ var parseCtx = []struct{ pre, post string }{
 	{vT + "{\\", ""},                           // 47 special char
 	{vT + "{/", ""},                            // 48 command end
 	{vT + "{$x ? ", ""},                        // 49
+	{vT + "{'\\u", ""},                         // 50 unicode escape in a string literal
+	{vT + "{'a\\u1", "'}\n{/template}\n"},       // 51 short unicode escape before the closing quote
+	{vT + "{call .t data=\"1 + ", " 2\"/}\n{/template}\n"}, // 52 inside a quoted attribute expression, tokens follow
+	{vT + "{css (1 ", " 2) c, x}\n{/template}\n"},            // 53 inside the css expression, tokens follow
+	{vT + "{call .t}{param k value=\"[1, 2 ", " 3]\"/}{/call}\n{/template}\n"}, // 54
+	{vT + "{['\\u12", "': 1]}\n{/template}\n"}, // 55 short unicode escape in a map key
 }
 
 // exprCtx: the same for parse.Expr
 var exprCtx = []struct{ pre, post string }{
 	{"", ""}, {"1 ", ""}, {"$x.", ""}, {"$x[", ""}, {"['a':", ""}, {"f(", ""}, {"'s", ""}, {"1 ? ", ""}, {"-", ""},
 	{"not ", ""}, {"1 + ", " 2"}, {"(", ")"}, {"[", "]"}, {"$x?.", ""}, {"1 ?: ", ""}, {"0x", ""}, {"1.", ""}, {"1e", ""},
+	{"'\\u", ""}, {"'\\u1", "'"}, {"'ab\\u", "'"}, {"['\\u", "': 1]"},
 }
 
 func symSuffix(k int, ascii bool) string {
